@@ -97,7 +97,16 @@ fn check_line(st: &mut Stats, line: &Value) -> Vec<String> {
             let from_vec_ids = HpoGroup::from(seq.iter().map(|x| HpoTermId::from(*x)).collect::<Vec<HpoTermId>>());
             let from_hash = HpoGroup::from(seq.iter().map(|x| HpoTermId::from(*x)).collect::<HashSet<HpoTermId>>());
             let from_iter: HpoGroup = seq.iter().map(|x| HpoTermId::from(*x)).collect();
-            for (what, g2) in [("From<Vec<u32>>", &from_vec_u32), ("From<Vec<HpoTermId>>", &from_vec_ids), ("From<HashSet>", &from_hash), ("FromIterator", &from_iter)] {
+            // collecting TERMS (not ids), in the order of the log: needs an ontology that holds them
+            let from_terms: HpoGroup = {
+                let mut b = hpo::builder::Builder::new();
+                for x in seq.iter().collect::<BTreeSet<_>>() {
+                    b.new_term(&format!("T{x}"), *x);
+                }
+                let ont = b.terms_complete().connect_all_terms().calculate_information_content().unwrap().build_minimal();
+                seq.iter().map(|x| ont.hpo(*x).expect("term was added")).collect()
+            };
+            for (what, g2) in [("From<Vec<u32>>", &from_vec_u32), ("From<Vec<HpoTermId>>", &from_vec_ids), ("From<HashSet>", &from_hash), ("FromIterator<HpoTermId>", &from_iter), ("FromIterator<HpoTerm>", &from_terms)] {
                 if let Some(e) = view_diff(what, g2, &want) {
                     d.push(e);
                 }
